@@ -158,8 +158,8 @@ impl<Aux> Vm<'_, Aux> {
     }
 
     pub fn read_var_by_name(&self, name: &str, vars: &Variables) -> Option<Value> {
-        let varid = vars.ids.get(Handle::from_str(name).ok()?)?;
-        self.read_var(*varid)
+        let varid = vars.id_of(name)?;
+        self.read_var(varid)
     }
 
     #[inline]
